@@ -171,6 +171,9 @@ def sh(cmd, cwd=None, timeout=3600):
     return subprocess.run(cmd, shell=True, cwd=cwd, capture_output=True, text=True, timeout=timeout)
 
 def apply(name):
+    # evidence/ must only ever hold results from the unchanged tree: keep it aside while /repo is mutated
+    keep = os.path.join(VERIF, ".work", "evidence.keep")
+    sh(f"rm -rf {keep} && mkdir -p {os.path.dirname(keep)} && cp -r {os.path.join(VERIF, 'evidence')} {keep}")
     for f, old, new in M[name]["edits"]:
         p = os.path.join(REPO, f)
         s = open(p).read()
@@ -180,6 +183,9 @@ def apply(name):
 
 def revert():
     sh("git checkout -- .", cwd=REPO)
+    keep = os.path.join(VERIF, ".work", "evidence.keep")
+    if os.path.isdir(keep):
+        sh(f"rm -rf {os.path.join(VERIF, 'evidence')} && mv {keep} {os.path.join(VERIF, 'evidence')}")
 
 def run(name, tests, tier, only=None):
     assert sh("git status --porcelain", cwd=REPO).stdout.strip() == "", "/repo is dirty"
